@@ -262,7 +262,8 @@ func TestClients(t *testing.T) {
 		n = EnvInt("HX_N", 6000)
 	}
 	ips3 := []uint32{5, 6, 7}
-	duids3 := [][]byte{{1}, {2}, {}}
+	long := []byte{0xff, 1, 2, 3, 4, 0, 4, 0xaa, 0xbb, 0xcc, 0xdd, 0xee, 0xff, 0x10, 0x11, 0x12, 0x13, 0x14}
+	duids3 := [][]byte{{1}, {2}, {}, append(append([]byte(nil), long...), 1), append(append([]byte(nil), long...), 2)}
 	for i := 0; i < n; i++ {
 		s.Op("cl.reset", "ok", false)
 		var seq []clOp
@@ -319,10 +320,21 @@ func ipdbScript(t *testing.T, r *Rng, s *Stream) {
 			return U32IP(start + uint32(r.Intn(int(min(size, 12)))))
 		}
 	}
-	duids := [][]byte{{1, 1, 1, 1}, {2, 2, 2, 2}, {3, 3, 3, 3}, {}, {0, 3, 0, 0, 2, 0, 0, 0, 0, 9}}
+	longd := []byte{0xff, 1, 2, 3, 4, 0, 4, 0xaa, 0xbb, 0xcc, 0xdd, 0xee, 0xff, 0x10, 0x11, 0x12, 0x13, 0x14}
+	duids := [][]byte{{1, 1, 1, 1}, {2, 2, 2, 2}, {3, 3, 3, 3}, {}, {0, 3, 0, 0, 2, 0, 0, 0, 0, 9}, append(append([]byte(nil), longd...), 1), append(append([]byte(nil), longd...), 2)}
 	var hist []string
 	hist = append(hist, fmt.Sprintf("db.new base=%d p=%d", base, plen))
 	now := func() int64 { return time.Now().UnixNano() }
+	bound := map[uint32]int64{} // monitor's own view: address -> latest expiry it may be bound until (maxInt = permanent)
+	dynLo, dynHi := uint32(0), uint32(0)
+	{
+		sz := uint32(1) << (32 - plen)
+		st := base / sz * sz
+		dynLo, dynHi = st+1, st+sz-2
+		if sz == 1 {
+			dynLo, dynHi = st, st
+		}
+	}
 	conflict := map[uint32]bool{}
 	for k := 0; k < 8; k++ {
 		if r.Chance(25) {
@@ -337,11 +349,15 @@ func ipdbScript(t *testing.T, r *Rng, s *Stream) {
 			a, b := addr(), addr()
 			op = fmt.Sprintf("db.setdyn from=%s to=%s", IPStr(a), IPStr(b))
 			ans = errClass(db.SetDynamicRange(a, b))
+			if ans == "ok" {
+				dynLo, dynHi = IPU32(a), IPU32(b)
+			}
 		case 1:
 			if r.Chance(30) {
 				op = "db.disable"
 				db.DisableDynamic()
 				ans = "ok"
+				dynLo, dynHi = 0, 0
 			} else {
 				a := addr()
 				op = "db.inrange ip=" + IPStr(a)
@@ -360,11 +376,17 @@ func ipdbScript(t *testing.T, r *Rng, s *Stream) {
 			a, du := addr(), Pick(r, duids...)
 			op = fmt.Sprintf("db.addperm t=%d ip=%s duid=%s", now(), IPStr(a), Hex(du))
 			ans = errClass(db.AddPermanentClient(a, du))
+			if ans == "ok" {
+				bound[IPU32(a)] = 1 << 62
+			}
 		case 5, 6, 7, 8:
 			a, du := addr(), Pick(r, duids...)
 			ttl := Pick(r, int64(15e9), 60e9, 3600e9, -1e9, 0)
 			op = fmt.Sprintf("db.update t=%d ip=%s duid=%s ttl=%d", now(), IPStr(a), Hex(du), ttl)
 			ans = errClass(db.UpdateClient(a, du, time.Duration(ttl)))
+			if ans == "ok" && bound[IPU32(a)] < now()+ttl {
+				bound[IPU32(a)] = now() + ttl
+			}
 		case 9, 10, 11:
 			a, du := addr(), Pick(r, duids...)
 			t0 := now()
@@ -403,6 +425,16 @@ func ipdbScript(t *testing.T, r *Rng, s *Stream) {
 			}
 			if err != nil {
 				ans = errClass(err)
+				// monitor: a search fails only when no eligible address exists (or it is disabled / cancelled)
+				if ans == "err:no-free-ip" && !cancelled && dynHi != 0 {
+					for x := dynLo; x <= dynHi && x != 0; x++ {
+						if x&0xff != 0 && x&0xff != 0xff && !conflict[x] && bound[x] < t0-int64(time.Second) {
+							s.Find(Finding{Property: "C11", Signature: "find-fails-with-free-address", Stream: "ipdb", What: "the address search failed although an unbound, conflict-free address of the range exists",
+								Ops: append(hist, op), Observed: fmt.Sprintf("free=%s", U32IP(x))})
+							break
+						}
+					}
+				}
 			} else {
 				ans = fmt.Sprintf("ok %d", IPU32(ip))
 				// monitor (C02/C08 database side): result must be the caller's binding or an eligible address
